@@ -14,7 +14,7 @@ theorem sepOK_lineEnd (ws1 nm ws2 val s : List Char) (next : Option Lexeme)
   | nil => rfl
   | cons c s => simpa [lineEnd] using h.2
 
-theorem obs_tokOf (ac ac' : Bool) (x : Lexeme) (s s' : List Char) (r r' : List (Lexeme × List Char))
+theorem obs_tokOf_same (ac ac' : Bool) (x : Lexeme) (s s' : List Char) (r r' : List (Lexeme × List Char))
     (h : adm ac ((x, s) :: r) = true) (h' : adm ac' ((x, s') :: r') = true) :
     (tokOf x s).obs = (tokOf x s').obs := by
   obtain ⟨hwf, hbs, -, hsep, -⟩ := adm_cons ac x s r h
@@ -30,16 +30,62 @@ theorem obs_tokOf (ac ac' : Bool) (x : Lexeme) (s s' : List Char) (r r' : List (
       obs_define ws1 nm ws2 val hwf s' hbs' (sepOK_lineEnd _ _ _ _ s' _ hsep')]
   | _ => rfl
 
-theorem toks_obs : ∀ (l l' : List (Lexeme × List Char)) (ac ac' : Bool), adm ac l = true → adm ac' l' = true →
-    sameLexemes l l' → (toks l).map Tok.obs = (toks l').map Tok.obs
-  | [], [], _, _, _, _, _ => rfl
-  | [], _ :: _, _, _, _, _, hs => by simp [sameLexemes] at hs
-  | _ :: _, [], _, _, _, _, hs => by simp [sameLexemes] at hs
-  | (x, s) :: r, (x', s') :: r', ac, ac', h, h', hs => by
+/-- `lexSim`: equal lexemes, or two enum heads that differ in their inner blanks only -/
+theorem lexSim_cases (x x' : Lexeme) (h : lexSim x x' = true) :
+    x = x' ∨ ∃ fl ws1 nm ws2 ty vals ws1' ws2' ty', x = .enum fl ws1 nm ws2 ty vals ∧ x' = .enum fl ws1' nm ws2' ty' vals ∧
+      (ty.map fun t => normType t.2.1) = (ty'.map fun t => normType t.2.1) := by
+  cases x with
+  | enum fl ws1 nm ws2 ty vals =>
+    cases x' with
+    | enum fl' ws1' nm' ws2' ty' vals' =>
+      simp only [lexSim, Bool.and_eq_true, beq_iff_eq] at h
+      obtain ⟨⟨⟨rfl, rfl⟩, rfl⟩, hty⟩ := h
+      refine .inr ⟨fl, ws1, nm, ws2, ty, vals, ws1', ws2', ty', rfl, rfl, ?_⟩
+      cases ty with
+      | none => cases ty' with
+        | none => rfl
+        | some t' => simp at hty
+      | some t => cases ty' with
+        | none => simp at hty
+        | some t' => obtain ⟨a, t, b⟩ := t; obtain ⟨a', t', b'⟩ := t'; simpa using hty
+    | _ => simp [lexSim] at h
+  | _ => exact .inl (by simpa [lexSim] using h)
+
+theorem obs_tokOf (ac ac' : Bool) (x x' : Lexeme) (s s' : List Char) (r r' : List (Lexeme × List Char))
+    (hx : lexSim x x' = true) (h : adm ac ((x, s) :: r) = true) (h' : adm ac' ((x', s') :: r') = true) :
+    (tokOf x s).obs = (tokOf x' s').obs := by
+  rcases lexSim_cases x x' hx with rfl | ⟨fl, ws1, nm, ws2, ty, vals, ws1', ws2', ty', rfl, rfl, hty⟩
+  · exact obs_tokOf_same ac ac' x s s' r r' h h'
+  · obtain ⟨hwf, hbs, -, -, -⟩ := adm_cons ac _ s r h
+    obtain ⟨hwf', hbs', -, -, -⟩ := adm_cons ac' _ s' r' h'
+    simp only [tokOf]
+    rw [obs_enum fl ws1 nm ws2 ty vals hwf s hbs, obs_enum fl ws1' nm ws2' ty' vals hwf' s' hbs', hty]
+
+theorem simLexemes_of_same : ∀ (l l' : List (Lexeme × List Char)), sameLexemes l l' → simLexemes l l' = true
+  | [], [], _ => rfl
+  | [], _ :: _, hs => by simp [sameLexemes] at hs
+  | _ :: _, [], hs => by simp [sameLexemes] at hs
+  | (x, s) :: r, (x', s') :: r', hs => by
     simp only [sameLexemes, List.map_cons, List.cons.injEq] at hs
     obtain ⟨rfl, hs⟩ := hs
-    have ih := toks_obs r r' _ _ (adm_cons ac x s r h).2.2.2.2 (adm_cons ac' x s' r' h').2.2.2.2 hs
-    simp only [toks, List.map_cons, ih, obs_tokOf ac ac' x s s' r r' h h']
+    have hrefl : lexSim x x = true := by
+      cases x with
+      | enum fl ws1 nm ws2 ty vals =>
+        cases ty with
+        | none => simp [lexSim]
+        | some t => obtain ⟨a, t, b⟩ := t; simp [lexSim]
+      | _ => simp [lexSim]
+    simp [simLexemes, hrefl, simLexemes_of_same r r' hs]
+
+theorem toks_obs : ∀ (l l' : List (Lexeme × List Char)) (ac ac' : Bool), adm ac l = true → adm ac' l' = true →
+    simLexemes l l' = true → (toks l).map Tok.obs = (toks l').map Tok.obs
+  | [], [], _, _, _, _, _ => rfl
+  | [], _ :: _, _, _, _, _, hs => by simp [simLexemes] at hs
+  | _ :: _, [], _, _, _, _, hs => by simp [simLexemes] at hs
+  | (x, s) :: r, (x', s') :: r', ac, ac', h, h', hs => by
+    simp only [simLexemes, Bool.and_eq_true] at hs
+    have ih := toks_obs r r' _ _ (adm_cons ac x s r h).2.2.2.2 (adm_cons ac' x' s' r' h').2.2.2.2 hs.2
+    simp only [toks, List.map_cons, ih, obs_tokOf ac ac' x x' s s' r r' hs.1 h h']
 
 theorem agree_tokOf (x : Lexeme) (s s' : List Char) (hb : blank s = true) (hb' : blank s' = true) :
     TokAgree (tokOf x s) (tokOf x s') := by
